@@ -933,15 +933,113 @@ def current_fingerprints():
     return fps
 
 
-FP_FILE = os.path.join(VERIF, "corpus", "C08", "fingerprints.json")
+# BEGIN-FINGERPRINTS (regenerated by `python -m harness.props.c08`)
+FINGERPRINTS = {
+ "Data_K.D_H": "bd560f55c592",
+ "Data_K.V_covariant": "7092a1d3fa58",
+ "Data_K.covariant": "40496c825902",
+ "Data_K.dEig_inv": "e8107d22656d",
+ "Data_K.delE_K": "84509e160ae6",
+ "Data_K.get_A_H": "cdd180d71956",
+ "Data_K.get_Bln": "5cd844cb413a",
+ "Data_K.get_E1": "fba5cb4784a0",
+ "Data_K.get_E2": "d585e90836e1",
+ "Data_K.get_M1": "a45b6251199d",
+ "Data_K.get_O1": "fab3940f5e06",
+ "Data_K_R.CCab_antisym_R": "3ea823b29467",
+ "Data_K_R.Xbar": "7a3c9f9e87ff",
+ "Data_K_R._R_to_k_H": "ea777fcdd6c6",
+ "Data_K_R.rotAA": "fc9273a88772",
+ "Data_K_R.rotAAab": "899dd9592b3c",
+ "Transform": "e03ba229524e",
+ "basic.Der_morb": "38a7830610eb",
+ "basic.FormulaAntiSymmetric": "f814e417419a",
+ "basic.FormulaSymmetric": "8e67dd8bedb3",
+ "basic.tildeFab": "f1ae3f71636f",
+ "basic.tildeFab_d": "c2e930169b5e",
+ "basic.tildeFc": "88b0b1bfe86b",
+ "basic.tildeFc_d": "71949f006e31",
+ "basic.tildeHGab": "d72cf75d1878",
+ "basic.tildeHGab_d": "897e3d78098a",
+ "basic.tildeHGc": "1f33e21e37fc",
+ "basic.tildeHGc_d": "82ec11e8a50b",
+ "basic.tildeHab": "f00606e5aa2e",
+ "basic.tildeHab_d": "ce4a6780294a",
+ "covariant.Der2A": "970d3b428a38",
+ "covariant.Der2B": "6565566c5ac5",
+ "covariant.Der2H": "f428ae9160af",
+ "covariant.Der2Morb": "087fa8d3d8a4",
+ "covariant.Der2Morb_H": "145a6cdf33c7",
+ "covariant.Der2O": "d2aa20125e86",
+ "covariant.Der2Omega": "3e27e6ed631b",
+ "covariant.Der2Spin": "7176fbcfe032",
+ "covariant.Der2morb": "31d6796bda43",
+ "covariant.Der3E": "b6ea877017a4",
+ "covariant.DerMorb": "cdab5bfcb720",
+ "covariant.DerMorb_H": "c571bf74d441",
+ "covariant.DerOmega": "222ef35f5db7",
+ "covariant.DerQuantumMetric_ab_d": "7a894d0f7870",
+ "covariant.DerSpin": "2f04de2932c4",
+ "covariant.Dermorb": "8193f7a2b01c",
+ "covariant.Hamiltonian": "a8bd64f65674",
+ "covariant.Identity": "d0da19b66535",
+ "covariant.MassMass": "5f3df734d01c",
+ "covariant.MassVel": "051417819eb8",
+ "covariant.Morb_H": "facd91aaa05a",
+ "covariant.Morb_Hpm": "4d0e563bbf5b",
+ "covariant.NLDrude_Z_orb_Hplus": "6a5ced046d52",
+ "covariant.NLDrude_Z_orb_Omega": "a015bec26533",
+ "covariant.NLDrude_Z_spin": "f3c4cfd109c4",
+ "covariant.Omega": "751a1efb6cdf",
+ "covariant.OmegaHplus": "4d86cc0617e4",
+ "covariant.OmegaOmega": "3881e7bdd800",
+ "covariant.OmegaS": "f52879f20022",
+ "covariant.QuantumMetric_ab": "303b00170129",
+ "covariant.Spin": "4be6d0192d0d",
+ "covariant.SpinOmega": "a2baae2d6e43",
+ "covariant.SpinVelocity": "92566d221416",
+ "covariant.VelDQM": "ac32c881e4f7",
+ "covariant.VelHplus": "b2748ec87515",
+ "covariant.VelMassVel": "fe6ede33489c",
+ "covariant.VelOmega": "fa74938be439",
+ "covariant.VelSpin": "e8db7ed58fc6",
+ "covariant.VelVel": "335388e9a3b1",
+ "covariant.VelVelVel": "b6581c412e9e",
+ "covariant.Velocity": "837e2891bbb7",
+ "covariant.emcha_surf": "8da796a1a514",
+ "covariant.morb": "0d5f9d009e0a",
+ "data_K.get_transform_Inv": "270a7896a444",
+ "data_K.get_transform_TR": "3ffa89fd5af2",
+ "dynamic.Formula_OptCond": "ec149897f8fe",
+ "dynamic.Formula_SHC": "676056274479",
+ "dynamic.Formula_dyn_ident": "98c583a42d32",
+ "dynamic.InjectionCurrentFormula": "0e3e684831a2",
+ "dynamic.ShiftCurrentFormula": "17f3df7dc0bc",
+ "elementary.DEinv_ln": "af4c07a8e3bd",
+ "elementary.Dcov": "3dfdede2c0b1",
+ "elementary.Der2Dcov": "dd9801eddf82",
+ "elementary.DerDcov": "3ccb4ff47fff",
+ "elementary.DerWln": "b06f632b39c6",
+ "elementary.Eavln": "7257cc555de8",
+ "elementary.InvMass": "4b4200b9f22f",
+ "formula.DeltaProduct": "2c8720e6f61b",
+ "formula.Formula": "5bdecde8c6d9",
+ "formula.FormulaProduct": "a41277907a13",
+ "formula.FormulaSum": "6da8cd3bf58d",
+ "formula.Formula_ln": "e3434f31b93f",
+ "formula.Matrix_GenDer_ln": "f4985efa52a5",
+ "formula.Matrix_ln": "f8990cd05482",
+ "sdct.Formula_SDCT": "0eeba3baaf2e",
+ "sdct.Formula_SDCT_sea_I": "6313ee553c9a",
+ "sdct.Formula_SDCT_sea_II": "662ffd71bf16",
+ "sdct.Formula_SDCT_surf_I": "c147d12b4347",
+ "sdct.Formula_SDCT_surf_II": "d0eed3f6a59a"
+}
+# END-FINGERPRINTS
 
 
 def fingerprints(ctx):
-    import json
-    if not os.path.exists(FP_FILE):
-        ctx.note("no source fingerprints recorded")
-        return
-    old = json.load(open(FP_FILE))
+    old = FINGERPRINTS
     new = current_fingerprints()
     changed = sorted(k for k in set(old) | set(new) if old.get(k) != new.get(k))
     if changed:
@@ -949,6 +1047,16 @@ def fingerprints(ctx):
                  "results above are authoritative): " + ", ".join(changed[:30]))
     ctx.count("fingerprints.unchanged", len(new) - len([c for c in changed if c in new]))
     ctx.count("fingerprints.changed", len(changed))
+
+
+def reseed(ctx, case):
+    """a replay re-creates the random stream of the recorded run"""
+    import random
+    seed = int(case.get("seed", ctx.seed))
+    ctx.seed = seed
+    ctx.rng = random.Random(seed * 1000003 + int(hashlib.sha1(ctx.pid.encode()).hexdigest()[:6], 16))
+    if case.get("tier") in ("quick", "thorough"):
+        ctx.tier = case["tier"]
 
 
 def replay(ctx, case):
@@ -973,7 +1081,8 @@ def replay(ctx, case):
                 print("  value(k)  =", np.round(np.array(r["v1"][0]).ravel()[:6], 6))
                 print("  value(-k) =", np.round(np.array(r["v2"][0]).ravel()[:6], 6))
     if not done:
-        print("no formula-level failure recorded in this replay file; re-running the whole check")
+        print("no formula-level failure recorded in this replay file; re-running the whole check with the recorded seed")
+        reseed(ctx, case)
         tables(ctx)
         corr(ctx)
         oracle(ctx, 1)
@@ -1000,7 +1109,10 @@ if __name__ == "__main__":
                 "\ntheorem snapshotTable_ok : checkTable snapshotTable = true := by decide +kernel\n"
                 "theorem snapshotParity_ok : checkParity snapshotParity = true := by decide +kernel\n"
                 "\nend WB.C08\n")
-    os.makedirs(os.path.dirname(FP_FILE), exist_ok=True)
-    json.dump(current_fingerprints(), open(FP_FILE, "w"), indent=1, sort_keys=True)
+    me = open(__file__).read()
+    a, b = me.index("# BEGIN-FINGERPRINTS"), me.index("# END-FINGERPRINTS")
+    me = (me[:a] + "# BEGIN-FINGERPRINTS (regenerated by `python -m harness.props.c08`)\nFINGERPRINTS = "
+          + json.dumps(current_fingerprints(), indent=1, sort_keys=True) + "\n" + me[b:])
+    open(__file__, "w").write(me)
     print(len(rows), "rows,", len(prow), "parity rows; unknown:", unknown, "; notes:", notes, "; broken:", calcs["broken"])
     sys.exit(0)
